@@ -13,11 +13,20 @@ a Python reference of std::string_view's definition):
   OPERATOR-VALUE        the member operators == != < > <= >= and the 24 non-member overloads against std::string / const char*
   PREFIX-SUFFIX-VALUE   starts_with / ends_with (view, char, C string if there is one), remove_prefix / remove_suffix (which bytes
                         remain, n <= size() as std::string_view requires)
+  FIND-VALUE            find / rfind / find_first_of / find_last_of / find_first_not_of / find_last_not_of (view, pos) and, if
+                        there is one, (const char*, pos): the index returned
   ELEMENT-ACCESS-VALUE  front() back() operator[] at(): which byte of the view is referred to; at() throws iff pos >= size()
   TO-STRING-VALUE       to_string() and the conversion to std::string: the bytes of the view, embedded NUL bytes kept
 The argument families are exhaustive small ones: every byte string over {00, 41, 80} up to length 2 (3 in the thorough tier) plus
 strings with 7f / ff and prefixes of each other, the default-constructed view, views of distinct bytes, positions and counts
 0..4, size() - 1, size(), size() + 1, 2^31, 2^32, 2^32 + 1, 2^63, npos - 1, npos.
+Operands that share storage: what a member of std::string_view answers depends on the bytes of its operands only, not on where
+they lie.  Every member that takes a second view / C string / std::string (compare, the operators, starts_with / ends_with, the
+find family) is therefore also evaluated with both operands in ONE memory block: every pair of sub-ranges of the buffers over
+{00, 41, 80} up to length 2 (3 in the thorough tier) and 41 41 41, 41 00 80, 41 80 41 (same start with different lengths, the same
+range twice, one object on both sides, nested, overlapping, adjacent), every sub-range of a NUL-terminated buffer against every
+pointer into that buffer, every sub-range of a std::string against that std::string.  Pointers are (block, offset): == / != of
+pointers is decided (different blocks are unequal), their ordering and difference only inside one block.
 
 Verdict policy of this file: a violation is reported only for a concrete point of an evaluation (a row of the small model, a
 row of the truth table over the sign of compare(), forwarded arguments that resolve to the wrong parameters, a call of a
@@ -34,6 +43,7 @@ std::tie(a, b) = pair, switch with labels at the top level of its body (fall-thr
 and - in the small model of the guards - local arrays of small integers used as byte-membership tables (bool wanted[256] = {};
 wanted[(unsigned char)c] = true; ... wanted[(unsigned char)*cur]): an index that is not known to lie inside the array or an
 element that was never written ends the evaluation as 'cannot decide'."""
+import itertools
 import re
 
 from engine import ir, dtable, match, cfg as cfgm
@@ -566,6 +576,10 @@ class GuardEval:
                 return (x[2] - y[2]) & M64
             if op in ("<", ">", "<=", ">=", "==", "!="):
                 x, y, signed = x[2], y[2], False
+        if op in ("==", "!=") and ((is_P(x) and is_Q(y)) or (is_Q(x) and is_P(y)) or (is_Q(x) and is_Q(y) and x[1] != y[1])):
+            # a position of this view against a position in the memory of a view parameter: in the model of the guards each view
+            # has memory of its own, the two pointers are not equal (operands that share storage: FIND-VALUE evaluates those)
+            return int(op == "!=")
         if is_P(x) and is_P(y):
             if x[1] != y[1]:
                 self.opaque(e)
@@ -1848,7 +1862,47 @@ def order_family(fn):
     return out
 
 
+def rel_by_evaluation(ck, tu, fn, op, cmpf, sigtext, where, deferred_msg):
+    """the relational member fn is not a formula over compare() that RelEval reads: both fn and compare() are interpreted on the
+    concrete operands of the value rules (buffers of their own, then both views in one buffer) and fn must answer what the sign
+    of compare() says.  A pair that both evaluate completely and that disagree is the counterexample; no verdict otherwise"""
+    if not cmpf:
+        ck.deferred.append(deferred_msg)
+        return
+    n = 0
+    undecided = None
+    cases = [("%s %s %s" % (fmt_bytes(a), op, fmt_bytes(b)), (lambda a=a, b=b: (make_view(a), [make_view(b)]))) for a, b in with_null(value_strings("quick"))]
+    cases += [("%s %s %s with %s" % (fmt_bytes(a), op, fmt_bytes(b), note), (lambda mk=mk: (lambda p: (p[0], [p[1]]))(mk()))) for a, b, note, mk in aliased("quick")]
+    for text, mk in cases:
+        try:
+            for mag in ("diff", "unit"):
+                got, used1 = value_outcome(tu, fn, mk, norm_bool, mag)
+                c, used2 = value_outcome(tu, cmpf[0], mk, norm_sign, mag)
+                if got[0] != "val" or c[0] != "val":
+                    raise CUndec("%s" % (got[0] if got[0] != "val" else c[0]))
+                if got[1] == bool(REL[op](c[1])):
+                    if mag == "unit":
+                        raise CUndec("the outcome depends on the magnitude of the value a compare primitive returns")
+                    break
+        except CUndec as u:
+            if undecided is None:
+                undecided = "%s on %s: %s" % (deferred_msg, text, u)
+            if "budget" in str(u):
+                break
+            continue
+        n += 1
+        if got[1] != bool(REL[op](c[1])):
+            ck.violation("REL-FROM-COMPARE", fn.qname, sigtext, "operator%s disagrees with compare(): %s gives %s where compare() gives %s"
+                         % (op, text, show_bool(got[1]), show_sign(c[1])), fn.loc)
+            return
+    if undecided is not None:
+        ck.deferred.append(undecided)
+    else:
+        ck.ok("REL-FROM-COMPARE", where, "not a formula over compare(): %d concrete pairs of views (buffers of their own, and both in one buffer) - the operator answers what the sign of compare() says" % n)
+
+
 def check_relational(ck, tu):
+    cmpf = [f for f in tu.find(record=SV, name="compare") if len(f.params) == 1 and bare_ty(f.params[0]["ty"]) == SV and f.body]
     for fn in tu.find(record=SV):
         if fn.kind != "operator" or fn.d.get("op") not in (">", "<=", ">=") or len(fn.params) != 1 or not fn.body:
             continue
@@ -1856,7 +1910,8 @@ def check_relational(ck, tu):
         try:
             bad = rel_table(fn, op)
         except NotUnderstood as e:
-            ck.deferred.append("%s: operator%s is not understood as a function of compare() / operator<: %s" % (fn.loc, op, e))
+            rel_by_evaluation(ck, tu, fn, op, cmpf, "operator" + op, "%s::operator%s" % (SV, op),
+                              "%s: operator%s is not understood as a function of compare() / operator<: %s" % (fn.loc, op, e))
             continue
         if bad is None:
             ck.ok("REL-FROM-COMPARE", "%s::operator%s" % (SV, op), "derived from the same ordering primitive with the right operand order / negation")
@@ -1883,7 +1938,8 @@ def check_relational(ck, tu):
                 ck.violation("REL-FROM-COMPARE", lt[0].qname, "lt-vs-compare", "operator< (%s byte order) and compare() (%s byte order) order bytes with different primitives: "
                              "they disagree on bytes 0x80..0xFF" % (min(fl), min(fc)), lt[0].loc)
             else:
-                ck.deferred.append("%s: operator< is neither derived from compare() nor built on a known byte-ordering primitive: %s" % (lt[0].loc, e))
+                rel_by_evaluation(ck, tu, lt[0], "<", [f for f in cmpf if f.body], "lt-vs-compare", SV + "::operator< vs compare",
+                                  "%s: operator< is neither derived from compare() nor built on a known byte-ordering primitive: %s" % (lt[0].loc, e))
 
 
 FWD = ("find", "rfind", "find_first_of", "find_last_of", "find_first_not_of", "find_last_not_of")
@@ -2549,6 +2605,8 @@ class Block:
                 return self.cell[0] & 0xFF
             raise COutside("byte %d behind the address of a single character" % off)
         if 0 <= off < len(self.b):
+            if self.b[off] is UNINIT:
+                raise CUndec("read of an element of %s that was never written" % self.what)
             return self.b[off]
         raise COutside("byte %d of %s (%d byte%s)" % (off, self.what, len(self.b), "" if len(self.b) == 1 else "s"))
 
@@ -2561,6 +2619,8 @@ class Block:
             raise COutside("%d bytes from the address of a single character" % n)
         if off < 0 or n < 0 or off + n > len(self.b):
             raise COutside("%s bytes from offset %d of %s (%d byte%s)" % ("npos" if n == NPOS else n, off, self.what, len(self.b), "" if len(self.b) == 1 else "s"))
+        if any(c is UNINIT for c in self.b[off:off + n]):
+            raise CUndec("read of elements of %s that were never written" % self.what)
         return self.b[off:off + n]
 
     def put(self, off, v):
@@ -2743,8 +2803,8 @@ class ConcEval:
         if a[0] != b[0]:
             self.undec("comparison of different kinds of iterators", e)
         if a[1] is not b[1]:
-            if op in ("==", "!=") and a[0] == "p":
-                return int(op == "!=")
+            if op in ("==", "!="):
+                return int(op == "!=")          # pointers into different objects (reverse iterators: their bases) are not equal
             self.undec("ordering of pointers into different objects (unspecified)", e)
         x, y = (a[2], b[2]) if a[0] == "p" else (b[2], a[2])
         return self.relate(op, x, y)
@@ -2818,9 +2878,11 @@ class ConcEval:
                 self.undec("read of an uninitialised member", e)
             return r
         bits, signed = self.model(ty if ty is not None else "char", e)
-        if bits != 8:
+        if bits not in (1, 8):
             self.undec("memory read with a type that is not a character type", e)
         c = v[1].get(v[2])
+        if bits == 1:
+            return int(c != 0)                  # an element of a local bool table
         return c - 256 if signed and c >= 128 else c
 
     def store(self, loc, v, e=None):
@@ -2974,6 +3036,12 @@ class ConcEval:
             return self.it_add(x, y if op == "+" else -y, e)
         if xi and yt and op == "+":
             return self.it_add(y, x, e)
+        if op in ("==", "!=") and isinstance(x, (Obj, Str)) and isinstance(y, (Obj, Str)):
+            # this == &other: the built-in operator on objects compares their addresses (operator== of a class is a call)
+            return int((x is y) == (op == "=="))
+        if op in ("==", "!=") and ((xi and x == 0 and is_ptr(y)) or (yi and y == 0 and is_ptr(x))):
+            # 0 == p: the only integer a pointer can be compared with is the null pointer constant (the conversion is not in the AST)
+            return self.it_cmp(op, NULLP if xi else x, NULLP if yi else y, e)
         if xt and yt:
             if op == "-":
                 return self.it_diff(x, y, e)
@@ -3137,7 +3205,7 @@ class ConcEval:
             if is_ref_ty(fn.d.get("ret")):
                 return v
             v = self.load(v, fn.d.get("ret"))
-            return v
+            return v.copy() if isinstance(v, (Obj, Str)) else v        # returned by value: an object of its own
         finally:
             self.depth -= 1
             self.env, self.this = saved
@@ -3665,6 +3733,24 @@ class ConcEval:
                 return 0
         return last if nm in ("find_if", "find_if_not", "find") else int(nm != "any_of")
 
+    def b_search(self, e, ks):
+        """std::search / std::find_end / std::find_first_of (first, last, s_first, s_last) without a predicate: both ranges must be
+        readable completely; -> the iterator of the first range the standard defines (last if there is none)"""
+        vals = [self.ev(a) for a in ks]
+        nm = e["callee"]["name"]
+        if len(vals) != 4 or not all(isinstance(v, tuple) and v[0] in ("p", "r") for v in vals) or vals[0][0] != vals[1][0] or vals[2][0] != vals[3][0]:
+            self.undec("%s with a predicate or on something that is not a pair of iterator ranges" % e["callee"]["qname"], e)
+        hay, pat = self.range_bytes(vals[0], vals[1], e), self.range_bytes(vals[2], vals[3], e)
+        if nm == "find_first_of":
+            hits = [i for i, c in enumerate(hay) if c in pat]
+        else:
+            hits = [i for i in range(len(hay) - len(pat) + 1) if hay[i:i + len(pat)] == pat]
+            if nm == "find_end":
+                if not pat:
+                    return vals[1]               # an empty [s_first, s_last): last
+                hits = hits[::-1]
+        return self.it_add(vals[0], hits[0], e) if hits else vals[1]
+
     BUILTINS = {"std::min": b_minmax, "std::max": b_minmax, "std::make_pair": b_make_pair,
                 "std::char_traits::compare": b_traits_compare, "memcmp": b_traits_compare, "std::memcmp": b_traits_compare,
                 "strlen": b_strlen, "std::strlen": b_strlen, "std::char_traits::length": b_traits_length,
@@ -3676,7 +3762,8 @@ class ConcEval:
                 "std::copy": b_copy, "std::copy_n": b_copy, "memcpy": b_copy, "std::memcpy": b_copy, "memmove": b_copy, "std::memmove": b_copy,
                 "std::char_traits::copy": b_copy, "std::char_traits::move": b_copy,
                 "std::find_if": b_all_any, "std::find_if_not": b_all_any, "std::find": b_all_any, "std::all_of": b_all_any,
-                "std::any_of": b_all_any, "std::none_of": b_all_any}
+                "std::any_of": b_all_any, "std::none_of": b_all_any,
+                "std::search": b_search, "std::find_end": b_search, "std::find_first_of": b_search}
 
     # ------------------------------------------------------------ statements
     def run(self, s):
@@ -3759,6 +3846,25 @@ class ConcEval:
         if v is None or v["k"] != "VarDecl" or v.get("static"):
             self.undec("declaration that is not a plain local variable", s)
         init = kids(v)[0] if kids(v) else None
+        arr = re.match(r"^(?:const\s+)?([A-Za-z_ 0-9]+?)\s*\[(\d+)\]$", v.get("ty") or "")
+        if arr:
+            # a local array of byte-sized integers (a membership table): a block of memory of its own; the variable stands for the
+            # pointer to its first element.  = { a, b } names the first elements, the others are zero; without an initialiser no
+            # element has a value yet
+            et, n = bare_ty(arr.group(1)), int(arr.group(2))
+            if et not in INT_MODEL or INT_MODEL[et][0] > 8 or not 0 < n <= 4096:
+                self.undec("local array of type %s" % v.get("ty"), s)
+            if init is None:
+                cells = [UNINIT] * n
+            elif init["k"] == "InitListExpr" and len(kids(init)) <= n and all(x is not None and x["k"] != "ImplicitValueInitExpr" for x in kids(init)):
+                vals = [self.ev(x) for x in kids(init)]
+                if not all(isinstance(x, int) for x in vals):
+                    self.undec("initialiser of the array %s" % v.get("name"), s)
+                cells = [x & 0xFF for x in vals] + [0] * (n - len(vals))
+            else:
+                self.undec("initialiser of the array %s" % v.get("name"), s)
+            self.env[v["did"]] = ("vl", [("p", Block(cells, "the local array %s" % v.get("name"), w=True), 0)])
+            return
         if v.get("isref") or is_ref_ty(v.get("ty")):
             r = self.raw(init)
             self.env[v["did"]] = r if is_loc(r) else ("vl", [r])
@@ -3899,6 +4005,67 @@ def make_arg(ty, bs):
     raise CUndec("parameter type %s" % ty)
 
 
+# -- operands that share storage.  std::string_view's members are functions of the BYTES of their operands: whether two operands
+# -- lie in one buffer or in two must not change any answer.  The families above build every operand from a buffer of its own, so
+# -- a pointer of one never equals a pointer of the other; the families below put both into ONE memory block: every pair of
+# -- sub-ranges of a small buffer (same start with different lengths, the same range twice, the object itself, nested, overlapping
+# -- at an offset, adjacent), a view of a C string buffer against a pointer into that buffer, a view of a std::string's bytes
+# -- against that std::string.  The reference stays the comparison of the byte tuples.
+ALIAS_EXTRA = ((0x41, 0x41, 0x41), (0x41, 0x00, 0x80), (0x41, 0x80, 0x41))
+ALIAS_EXTRA_THOROUGH = ((0x41, 0x41, 0x41, 0x41), (0x41, 0x80, 0x41, 0x80))
+
+
+def alias_buffers(tier):
+    out = [t for t in byte_strings(3 if tier == "thorough" else 2) if t]
+    return out + [t for t in ALIAS_EXTRA + (ALIAS_EXTRA_THOROUGH if tier == "thorough" else ()) if t not in out]
+
+
+def subranges(L):
+    return [(o, n) for o in range(L + 1) for n in range(L - o + 1)]
+
+
+def view_into(blk, o, n):
+    return Obj(SV, {"ptr_": ("p", blk, o), "size_": n})
+
+
+def aliased(tier, second="V"):
+    """pairs of operands in one memory block: -> (bytes of the first, bytes of the second, description, factory of the pair).
+    second = 'V': two views into one buffer; 'S': a view into a NUL-terminated buffer and a pointer into the same buffer (the C
+    string from there on); 'T': a view of the bytes of a std::string and that std::string"""
+    for buf in alias_buffers(tier):
+        L = len(buf)
+        if second == "V":
+            rs = subranges(L)
+            for o1, n1 in rs:
+                for o2, n2 in rs:
+                    def mk(buf=buf, o1=o1, n1=n1, o2=o2, n2=n2):
+                        blk = Block(list(buf), "the buffer " + fmt_bytes(buf))
+                        return view_into(blk, o1, n1), view_into(blk, o2, n2)
+                    mk.same = (o1, n1) == (o2, n2)
+                    yield (buf[o1:o1 + n1], buf[o2:o2 + n2], "the bytes [%d, %d) and [%d, %d) of one buffer %s" % (o1, o1 + n1, o2, o2 + n2, fmt_bytes(buf)), mk)
+        elif second == "S":
+            if 0 in buf:
+                continue
+            full = buf + (0,)
+            for o1, n1 in subranges(L + 1):
+                for o2 in range(L + 1):
+                    def mk(buf=buf, full=full, o1=o1, n1=n1, o2=o2):
+                        blk = Block(list(full), "the C string " + fmt_bytes(buf))
+                        return view_into(blk, o1, n1), ("p", blk, o2)
+                    yield (full[o1:o1 + n1], buf[o2:], "the bytes [%d, %d) of the C string buffer %s and the pointer to its byte %d" % (o1, o1 + n1, fmt_bytes(buf), o2), mk)
+        else:
+            for o1, n1 in subranges(L):
+                def mk(buf=buf, o1=o1, n1=n1):
+                    s = Str(buf)
+                    return view_into(s.blk, o1, n1), s
+                yield (buf[o1:o1 + n1], buf, "the bytes [%d, %d) of the std::string %s and that std::string" % (o1, o1 + n1, fmt_bytes(buf)), mk)
+
+
+def by_value(fn, i, v):
+    """the argument object v for parameter i of fn: a parameter that is not a reference gets an object of its own"""
+    return v if is_ref_ty(fn.params[i]["ty"]) or not isinstance(v, (Obj, Str)) else v.copy()
+
+
 def ref_cmp(a, b):
     """std::string_view::compare: the bytes as unsigned char, a proper prefix is smaller"""
     a, b = tuple(a or ()), tuple(b or ())
@@ -3988,6 +4155,7 @@ def run_value_cases(ck, tu, rule, fn, where, cases, norm, show, what, std):
     """cases: iterable of (text of the call, factory of (this, arguments), expected value | None = throws).  The first case whose
     evaluated outcome differs from the reference is reported; a case that cannot be evaluated makes the function 'cannot decide'."""
     n = 0
+    undecided = None
     for text, mk, want in cases:
         n += 1
         want = ("throw",) if want is None else ("val", want)
@@ -3999,12 +4167,22 @@ def run_value_cases(ck, tu, rule, fn, where, cases, norm, show, what, std):
                 if value_outcome(tu, fn, mk, norm, "unit")[0] == want:
                     raise CUndec("the outcome depends on the magnitude of the value a compare primitive returns (the standard fixes its sign only)")
         except CUndec as u:
-            raise dtable.Undecidable("%s: %s cannot be evaluated on %s: %s" % (fn.loc, sig(fn), text, u))
+            # this case is not decided.  A later case that evaluates completely and differs from the reference is evidence all the
+            # same (e.g. an ordering of the operands' pointers is unspecified for two buffers and wrong for one); if there is none,
+            # the function is 'cannot decide'
+            if undecided is None:
+                undecided = "%s: %s cannot be evaluated on %s: %s" % (fn.loc, sig(fn), text, u)
+            if "budget" in str(u):
+                break                           # an evaluation that does not come to an end: not once per case
+            continue
         if got != want:
             def f(o):
-                return "throws" if o[0] == "throw" else "reads %s, outside the memory of its arguments," % o[1] if o[0] == "outside" else "gives %s" % show(o[1])
+                return "throws" if o[0] == "throw" else "reads %s, outside %s," % (o[1], "that array" if "the local array" in o[1] else "the memory of its arguments") \
+                    if o[0] == "outside" else "gives %s" % show(o[1])
             ck.violation(rule, fn.qname, sig(fn), "%s %s where %s %s" % (text, f(got), std, f(want).rstrip(",")), fn.loc)
             return
+    if undecided is not None:
+        raise dtable.Undecidable(undecided)
     ck.ok(rule, where, "%d concrete cases (%s): every result agrees with %s" % (n, what, std), sample=dict(rule=rule, fn=sig(fn), cases=n))
     ck.states += n
 
@@ -4035,17 +4213,48 @@ def pick(tu, what, pred, shapes, optional=()):
     return found
 
 
-def compare_cases(shape, strings):
+ALIAS_POS_N = ((0, NPOS), (0, 1), (1, 1), (1, NPOS), (2, 1), (3, 0))
+
+
+def compare_cases(shape, strings, tier="quick"):
     """arguments and reference for one overload of compare(); roles by position and type as std::string_view fixes them:
-    ([pos1, n1,] x [, pos2, n2 | , n2])"""
-    cstrs = [s for s in strings if 0 not in s]
+    ([pos1, n1,] x [, pos2, n2 | , n2]).  After the operands with buffers of their own: the operands that share storage"""
+    cstrs = [s for s in strings or () if 0 not in s]
+    if strings is None and shape in ("V", "S"):
+        return
     if shape == "V":
         for a, b in with_null(strings):
             yield "%s.compare(%s)" % (fmt_bytes(a), fmt_bytes(b)), (lambda a=a, b=b: (make_view(a), [make_view(b)])), ref_cmp(a, b)
+        for a, b, note, mk in aliased(tier):
+            yield "%s.compare(%s) with %s" % (fmt_bytes(a), fmt_bytes(b), note), (lambda mk=mk: (lambda p: (p[0], [p[1]]))(mk())), ref_cmp(a, b)
     elif shape == "S":
         for a in strings:
             for b in cstrs:
                 yield "%s.compare(C string %s)" % (fmt_bytes(a), fmt_bytes(b)), (lambda a=a, b=b: (make_view(a), [make_cstr(b)])), ref_cmp(a, b)
+        for a, b, note, mk in aliased(tier, "S"):
+            yield "%s.compare(C string %s) with %s" % (fmt_bytes(a), fmt_bytes(b), note), (lambda mk=mk: (lambda p: (p[0], [p[1]]))(mk())), ref_cmp(a, b)
+    elif shape in ("IIV", "IIS") and strings is None:
+        for a, b, note, mk in aliased("quick", "V" if shape == "IIV" else "S"):
+            for pos, n in ALIAS_POS_N:
+                sub = ref_substr(a, pos, n)
+                yield ("%s.compare(%s, %s, %s%s) with %s" % (fmt_bytes(a), fmt_int(pos), fmt_int(n), "C string " if shape == "IIS" else "", fmt_bytes(b), note),
+                       (lambda mk=mk, pos=pos, n=n: (lambda p: (p[0], [pos, n, p[1]]))(mk())), None if sub is None else ref_cmp(sub, b))
+    elif shape == "IIVII" and strings is None:
+        for a, b, note, mk in aliased("quick"):
+            for p1, n1 in ALIAS_POS_N[:4]:
+                for p2, n2 in ALIAS_POS_N[:4]:
+                    s1, s2 = ref_substr(a, p1, n1), ref_substr(b, p2, n2)
+                    yield ("%s.compare(%s, %s, %s, %s, %s) with %s" % (fmt_bytes(a), fmt_int(p1), fmt_int(n1), fmt_bytes(b), fmt_int(p2), fmt_int(n2), note),
+                           (lambda mk=mk, p1=p1, n1=n1, p2=p2, n2=n2: (lambda p: (p[0], [p1, n1, p[1], p2, n2]))(mk())),
+                           None if s1 is None or s2 is None else ref_cmp(s1, s2))
+    elif shape == "IISI" and strings is None:
+        for a, b, note, mk in aliased("quick", "S"):
+            for p1, n1 in ALIAS_POS_N[:4]:
+                for n2 in range(len(b) + 2):
+                    s1 = ref_substr(a, p1, n1)
+                    yield ("%s.compare(%s, %s, buffer %s, %d) with %s" % (fmt_bytes(a), fmt_int(p1), fmt_int(n1), fmt_bytes(b + (0,)), n2, note),
+                           (lambda mk=mk, p1=p1, n1=n1, n2=n2: (lambda p: (p[0], [p1, n1, p[1], n2]))(mk())),
+                           None if s1 is None else ref_cmp(s1, (b + (0,))[:n2]))
     elif shape in ("IIV", "IIS"):
         for a in THIS_SMALL:
             for b in (OTHER_SMALL if shape == "IIV" else [s for s in OTHER_SMALL if 0 not in s]):
@@ -4082,8 +4291,9 @@ def check_compare_value(ck, tu):
     for shape in shapes:
         fn = fns[shape]
         ck.guarded(lambda fn=fn, shape=shape: run_value_cases(
-            ck, tu, "COMPARE-VALUE", fn, SV + "::" + sig(fn), compare_cases(shape, strings), norm_sign, show_sign,
-            "views / C strings over {00, 41, 80, 7f, ff} incl. prefixes of each other, pos / n around the size, at 2^31, 2^32, 2^63 and npos",
+            ck, tu, "COMPARE-VALUE", fn, SV + "::" + sig(fn), itertools.chain(compare_cases(shape, strings, ck.tier), compare_cases(shape, None)), norm_sign, show_sign,
+            "views / C strings over {00, 41, 80, 7f, ff} incl. prefixes of each other, pos / n around the size, at 2^31, 2^32, 2^63 and npos; "
+            "operands with buffers of their own, then operands that share one buffer (every pair of sub-ranges; a view of a C string buffer against a pointer into it)",
             "std::string_view::compare"))
 
 
@@ -4104,8 +4314,15 @@ def check_operator_value(ck, tu):
             def member_cases():
                 for a, b in with_null(strings):
                     yield "%s %s %s" % (fmt_bytes(a), op, fmt_bytes(b)), (lambda a=a, b=b: (make_view(a), [make_view(b)])), bool(want(ref_cmp(a, b)))
+                for a, b, note, mk in aliased(ck.tier):
+                    yield "%s %s %s with %s" % (fmt_bytes(a), op, fmt_bytes(b), note), (lambda mk=mk: (lambda p: (p[0], [p[1]]))(mk())), bool(want(ref_cmp(a, b)))
+                    if mk.same:
+                        # the same range twice: also as one object on both sides (x == x)
+                        yield ("x %s x for the view x = %s" % (op, fmt_bytes(a)), (lambda mk=mk: (lambda p: (p[0], [by_value(fn, 0, p[0])]))(mk())), bool(want(0)))
             ck.guarded(lambda: run_value_cases(ck, tu, "OPERATOR-VALUE", fn, SV + "::" + sig(fn), member_cases(), norm_bool, show_bool,
-                                               "pairs of views over {00, 41, 80, 7f, ff} incl. prefixes of each other", "std::string_view's operator" + op))
+                                               "pairs of views over {00, 41, 80, 7f, ff} incl. prefixes of each other, each with a buffer of its own; then both "
+                                               "views into one buffer (every pair of sub-ranges: same start with different lengths, nested, overlapping, the object itself)",
+                                               "std::string_view's operator" + op))
             for shape in ("VT", "TV", "VS", "SV"):
                 g = free[shape]
 
@@ -4116,9 +4333,17 @@ def check_operator_value(ck, tu):
                             yield ("%s%s %s %s%s" % ({"V": "", "T": "std::string ", "S": "C string "}[shape[0]], fmt_bytes(a), op,
                                                       {"V": "", "T": "std::string ", "S": "C string "}[shape[1]], fmt_bytes(b)),
                                    (lambda a=a, b=b: (None, [make_arg(g.params[0]["ty"], a), make_arg(g.params[1]["ty"], b)])), bool(want(ref_cmp(a, b))))
+                    vfirst = shape[0] == "V"
+                    for v, o, note, mk in aliased("quick", shape[1] if vfirst else shape[0]):
+                        a, b = (v, o) if vfirst else (o, v)
+                        yield ("%s%s %s %s%s with %s" % ({"V": "", "T": "std::string ", "S": "C string "}[shape[0]], fmt_bytes(a), op,
+                                                          {"V": "", "T": "std::string ", "S": "C string "}[shape[1]], fmt_bytes(b), note),
+                               (lambda mk=mk, vfirst=vfirst: (lambda p: (None, [by_value(g, 0, p[0] if vfirst else p[1]), by_value(g, 1, p[1] if vfirst else p[0])]))(mk())),
+                               bool(want(ref_cmp(a, b))))
                 ck.guarded(lambda g=g, free_cases=free_cases: run_value_cases(
                     ck, tu, "OPERATOR-VALUE", g, "tlx::" + sig(g), free_cases(), norm_bool, show_bool,
-                    "a view against a std::string / C string over {00, 41, 80, 7f, ff}, either order", "std::string_view's operator" + op))
+                    "a view against a std::string / C string over {00, 41, 80, 7f, ff}, either order, with memory of their own; then the view cut from "
+                    "that std::string / from the buffer of that C string (every sub-range, against every pointer into the buffer)", "std::string_view's operator" + op))
         ck.guarded(one)
 
 
@@ -4135,8 +4360,14 @@ def check_prefix_suffix_value(ck, tu):
                     a, b = a0 or (), b0 or ()
                     yield ("%s.%s(%s)" % (fmt_bytes(a0), name, fmt_bytes(b0)), (lambda a0=a0, b0=b0: (make_view(a0), [make_view(b0)])),
                            len(b) <= len(a) and (a[len(a) - len(b):] if end else a[:len(b)]) == b)
+                for a, b, note, mk in aliased(ck.tier):
+                    yield ("%s.%s(%s) with %s" % (fmt_bytes(a), name, fmt_bytes(b), note), (lambda mk=mk: (lambda p: (p[0], [p[1]]))(mk())),
+                           len(b) <= len(a) and (a[len(a) - len(b):] if end else a[:len(b)]) == b)
+                    if mk.same:
+                        yield ("x.%s(x) for the view x = %s" % (name, fmt_bytes(a)), (lambda mk=mk: (lambda p: (p[0], [by_value(fn, 0, p[0])]))(mk())), True)
             ck.guarded(lambda: run_value_cases(ck, tu, "PREFIX-SUFFIX-VALUE", fn, SV + "::" + sig(fn), view_cases(), norm_bool, show_bool,
-                                               "pairs of views over {00, 41, 80, 7f, ff}, the argument shorter, equal and longer", "std::string_view::" + name))
+                                               "pairs of views over {00, 41, 80, 7f, ff}, the argument shorter, equal and longer, each with a buffer of its own; "
+                                               "then both views into one buffer (every pair of sub-ranges)", "std::string_view::" + name))
             gn = fns["C"]
 
             def char_cases():
@@ -4154,8 +4385,11 @@ def check_prefix_suffix_value(ck, tu):
                         for b in [s for s in strings if 0 not in s]:
                             yield ("%s.%s(C string %s)" % (fmt_bytes(a), name, fmt_bytes(b)), (lambda a=a, b=b: (make_view(a), [make_cstr(b)])),
                                    len(b) <= len(a) and (a[len(a) - len(b):] if end else a[:len(b)]) == b)
+                    for a, b, note, mk in aliased("quick", "S"):
+                        yield ("%s.%s(C string %s) with %s" % (fmt_bytes(a), name, fmt_bytes(b), note), (lambda mk=mk: (lambda p: (p[0], [p[1]]))(mk())),
+                               len(b) <= len(a) and (a[len(a) - len(b):] if end else a[:len(b)]) == b)
                 ck.guarded(lambda: run_value_cases(ck, tu, "PREFIX-SUFFIX-VALUE", hn, SV + "::" + sig(hn), cstr_cases(), norm_bool, show_bool,
-                                                   "views against C strings over {41, 80, 7f, ff}", "std::string_view::" + name))
+                                                   "views against C strings over {41, 80, 7f, ff}, then views of a C string buffer against pointers into it", "std::string_view::" + name))
         ck.guarded(one)
     for name in ("remove_prefix", "remove_suffix"):
         def two(name=name):
@@ -4170,6 +4404,86 @@ def check_prefix_suffix_value(ck, tu):
             run_value_cases(ck, tu, "PREFIX-SUFFIX-VALUE", fn, SV + "::" + sig(fn), cases(), norm_remaining, show_bytes,
                             "views of 0..4 distinct bytes, every n <= size(): the bytes that remain in the view", "std::string_view::" + name)
         ck.guarded(two)
+
+
+def ref_find(name, a, s, pos):
+    """std::string_view's find family on byte tuples: the index, or NPOS"""
+    S = len(a)
+    if name == "find":
+        for i in range(min(pos, S + 1), S - len(s) + 1):
+            if a[i:i + len(s)] == s:
+                return i
+        return NPOS
+    if name == "rfind":
+        if len(s) > S:
+            return NPOS
+        for i in range(min(pos, S - len(s)), -1, -1):
+            if a[i:i + len(s)] == s:
+                return i
+        return NPOS
+    fwd = name in ("find_first_of", "find_first_not_of")
+    order = range(min(pos, S), S) if fwd else range(min(pos, S - 1), -1, -1)
+    for i in order:
+        if (a[i] in s) == (name in ("find_first_of", "find_last_of")):
+            return i
+    return NPOS
+
+
+def norm_index(ce, v, this, args):
+    if not isinstance(v, int) or isinstance(v, bool) or not 0 <= v <= NPOS:
+        raise CUndec("the result is not a size_type")
+    return v
+
+
+def show_index(x):
+    return fmt_int(x)
+
+
+FIND_POS = (0, 1, 2, 3, NPOS)
+
+
+def check_find_value(ck, tu):
+    """FIND-VALUE: what the six find members answer when the pattern lies in the memory of the searched view - or does not"""
+    strings = value_strings("quick")
+    for name in sorted(DIRECTION):
+        def one(name=name):
+            fns = {}
+            for f in tu.functions:
+                if f.record == SV and f.name == name and f.body is not None and shape_of(f) in ("VI", "SI"):
+                    if shape_of(f) in fns:
+                        raise dtable.Undecidable("%s: two overloads %s" % (f.loc, sig(f)))
+                    fns[shape_of(f)] = f
+            if "VI" not in fns:
+                raise dtable.Undecidable("%s::%s: the overload (StringView, size_type) is not there" % (SV, name))
+            fn = fns["VI"]
+
+            def view_cases():
+                for a, s, note, mk in aliased(ck.tier):
+                    for pos in FIND_POS:
+                        yield ("%s.%s(%s, %s) with %s" % (fmt_bytes(a), name, fmt_bytes(s), fmt_int(pos), note),
+                               (lambda mk=mk, pos=pos: (lambda p: (p[0], [p[1], pos]))(mk())), ref_find(name, a, s, pos))
+                    if mk.same:
+                        yield ("x.%s(x, 0) for the view x = %s" % (name, fmt_bytes(a)), (lambda mk=mk: (lambda p: (p[0], [by_value(fn, 0, p[0]), 0]))(mk())), ref_find(name, a, a, 0))
+                for a in THIS_SMALL + ((0x41, 0x41, 0x80, 0x41),):
+                    for s in OTHER_SMALL:
+                        for pos in FIND_POS:
+                            yield ("%s.%s(%s, %s)" % (fmt_bytes(a), name, fmt_bytes(s), fmt_int(pos)),
+                                   (lambda a=a, s=s, pos=pos: (make_view(a), [make_view(s), pos])), ref_find(name, a, s, pos))
+            ck.guarded(lambda: run_value_cases(ck, tu, "FIND-VALUE", fn, SV + "::" + sig(fn), view_cases(), norm_index, show_index,
+                                               "both views into one buffer (every pair of sub-ranges of buffers over {00, 41, 80}: the pattern inside the searched view, "
+                                               "overlapping it, before / behind it, the view itself), then views with buffers of their own; pos 0..3 and npos",
+                                               "std::string_view::" + name))
+            if "SI" in fns:
+                gn = fns["SI"]
+
+                def cstr_cases():
+                    for a, s, note, mk in aliased("quick", "S"):
+                        for pos in FIND_POS:
+                            yield ("%s.%s(C string %s, %s) with %s" % (fmt_bytes(a), name, fmt_bytes(s), fmt_int(pos), note),
+                                   (lambda mk=mk, pos=pos: (lambda p: (p[0], [p[1], pos]))(mk())), ref_find(name, a, s, pos))
+                ck.guarded(lambda: run_value_cases(ck, tu, "FIND-VALUE", gn, SV + "::" + sig(gn), cstr_cases(), norm_index, show_index,
+                                                   "views of a C string buffer over {41, 80} against pointers into that buffer; pos 0..3 and npos", "std::string_view::" + name))
+        ck.guarded(one)
 
 
 def check_element_value(ck, tu):
@@ -4242,11 +4556,11 @@ def run(ck):
         "pos; REL-FROM-COMPARE: truth table of the relational members over the sign of compare(); OVERLOAD-ROLES: the 18 forwarding overloads "
         "pass (pattern, pos, n) in their roles (roles by position and type); an overload that is not one straight-line call is evaluated on a small "
         "model of (pos, n / strlen(s)) incl. the constants it mentions: every path must end in a call of another overload of the member that is "
-        "asked for the same bytes (constructors are evaluated from their initialiser lists) at pos. Which index the find family returns once its "
-        "scan has started is not decided. "
-        "COMPARE-VALUE / OPERATOR-VALUE / PREFIX-SUFFIX-VALUE / ELEMENT-ACCESS-VALUE / TO-STRING-VALUE: the six compare() overloads, the six member "
+        "asked for the same bytes (constructors are evaluated from their initialiser lists) at pos. "
+        "COMPARE-VALUE / OPERATOR-VALUE / PREFIX-SUFFIX-VALUE / FIND-VALUE / ELEMENT-ACCESS-VALUE / TO-STRING-VALUE: the six compare() overloads, the six member "
         "and 24 non-member comparison operators (against std::string and const char*, either order), starts_with / ends_with (view and char), "
-        "remove_prefix / remove_suffix, front / back / operator[] / at and to_string / operator std::string are interpreted on concrete arguments "
+        "remove_prefix / remove_suffix, the six find members (view, pos) / (const char*, pos) - the index they return -, "
+        "front / back / operator[] / at and to_string / operator std::string are interpreted on concrete arguments "
         "(no tlx code is compiled or run: the interpreter walks the AST): integers of the LP64 types with the conversions the AST spells out "
         "(unsigned wrap-around exact, signed overflow = cannot decide), pointers as (memory block, offset), views / std::strings / "
         "std::string_views as objects with value semantics, constructors from their initialiser lists, calls of other members, helpers and "
@@ -4259,12 +4573,18 @@ def run(ck):
         "for prefix / suffix. A violation names the concrete call, what the evaluated code gives (value, bytes left, byte referred to, throw, "
         "or a read outside the memory of its arguments) and what std::string_view gives. The compare primitives return the byte difference "
         "in the first run; a mismatch that disappears when they return -1 / +1 is 'cannot decide' (the standard fixes the sign only). "
+        "Operands that share storage: the answers depend on the bytes only, so every member with a second view / C string / std::string "
+        "operand is also evaluated with both operands in one memory block - every pair of sub-ranges of small buffers (same start with "
+        "different lengths, the same range, the object itself, nested, overlapping), sub-ranges of a NUL-terminated buffer against "
+        "pointers into it, sub-ranges of a std::string against that std::string; equality of pointers is decided (block and offset), "
+        "their ordering only inside one block; a case that cannot be evaluated does not stop the search for a case that is evaluated "
+        "completely and differs. "
         "remove_prefix / remove_suffix are evaluated for n <= size() only and front / back / operator[] inside the view only: beyond that "
         "std::string_view is undefined.")
     tu = ir.extract("witness/C18_string_view.cpp")
     # a rule that cannot decide its construct (exit 2) must not hide what another rule reports
     for rule in (check_primitives, check_guards, check_pos_reaches, check_relational, check_overloads,
-                 check_compare_value, check_operator_value, check_prefix_suffix_value, check_element_value, check_tostring_value):
+                 check_compare_value, check_operator_value, check_prefix_suffix_value, check_find_value, check_element_value, check_tostring_value):
         ck.guarded(lambda: rule(ck, tu))
     ck.floor("GUARD-TABLES", 9)
     ck.floor("POS-REACHES-ACCESS", 8)
@@ -4273,5 +4593,6 @@ def run(ck):
     ck.floor("COMPARE-VALUE", 6)
     ck.floor("OPERATOR-VALUE", 30)
     ck.floor("PREFIX-SUFFIX-VALUE", 6)
+    ck.floor("FIND-VALUE", 6)
     ck.floor("ELEMENT-ACCESS-VALUE", 4)
     ck.floor("TO-STRING-VALUE", 2)
